@@ -50,6 +50,14 @@ def give(form, singus, mesh):
         return frozenset(l)
     if form == "array":
         return np.array(l, dtype=int)
+    if form == "array32":
+        return np.array(l, dtype=np.int32)
+    if form == "array_u8":
+        return np.array(l, dtype=np.uint8 if all(0 <= v < 256 for v in l) else np.uint16)
+    if form == "npscalars":
+        return [np.int64(v) for v in l]
+    if form == "dictkeys":
+        return dict.fromkeys(l, 0).keys()
     if form == "dict":
         return dict.fromkeys(l, 1.)
     if form == "attribute":
@@ -68,17 +76,73 @@ def give(form, singus, mesh):
     raise ValueError("unknown container form " + form)
 
 
+def _snapshot(mesh):
+    return ([[float(x) for x in p] for p in mesh.vertices], [[int(v) for v in F] for F in mesh.faces])
+
+
+def _attr_names(mesh):
+    return sorted("%s/%s" % (k, a) for k, c in (("vertices", mesh.vertices), ("edges", mesh.edges), ("faces", mesh.faces),
+                                               ("face_corners", mesh.face_corners)) for a in c.attributes)
+
+
+def _make_cutter(SingularityCutter, mesh, given, feat, call):
+    if call == "pos":
+        return SingularityCutter(mesh, given, feat, False)
+    if call == "kwall":
+        return SingularityCutter(mesh=mesh, singularities=given, features=feat, verbose=False)
+    if call == "omit" and feat is None:
+        return SingularityCutter(mesh, given)
+    return SingularityCutter(mesh, given, features=feat, verbose=False)
+
+
+def _vandalise(c):
+    """use and then wreck everything a finished cutter handed out (nothing of it may be shared with another cutter)"""
+    try:
+        out = c.output_mesh
+        for p in out.vertices:
+            p += 1000.
+        for F in out.faces:
+            for k in range(len(F)):
+                F[k] = 0
+    except Exception:
+        pass
+    for name in ("cut_edges", "cut_adj", "ref_vertex"):
+        x = getattr(c, name, None)
+        try:
+            x.clear()
+        except Exception:
+            pass
+    try:
+        c.singularities.append(0)
+        c.singu_set.add(0)
+    except Exception:
+        pass
+
+
 def run_case(case):
+    import random
+    import warnings
     import numpy as np
     import mouette as M
     from mouette.mesh.mesh_data import RawMeshData
     from mouette.processing.cutting import SingularityCutter
 
+    warnings.filterwarnings("ignore")
     obs = {"ok": False, "error": None}
+    sess = case.get("session") or {}
+    cfg_saved = (M.config.sort_neighborhoods, M.config.display_duplicate_attribute_warning)
     try:
+        if sess.get("sort_off"):
+            M.config.sort_neighborhoods = False
         raw = RawMeshData()
         raw.vertices += [np.array(p, dtype=float) for p in case["coords"]]
         raw.faces += [list(F) for F in case["faces"]]
+        if sess.get("declared_edges"):
+            # the caller declares the edges itself: another order, some stored as (b, a)
+            r0 = random.Random(1000 * len(case["faces"]) + case["nv"])
+            und = sorted({tuple(sorted((F[i], F[(i + 1) % 3]))) for F in case["faces"] for i in range(3)})
+            r0.shuffle(und)
+            raw.edges += [(b, a) if r0.random() < 0.5 else (a, b) for a, b in und]
         mesh = M.mesh.SurfaceMesh(raw)
         # the implementation must see the faces in the order given
         if [list(map(int, F)) for F in mesh.faces] != [list(F) for F in case["faces"]]:
@@ -89,19 +153,40 @@ def run_case(case):
         obs["interior"] = sorted(_ints(mesh.interior_edges))
         obs["boundary"] = sorted(_ints(mesh.boundary_edges))
         eid = {tuple(sorted(e)): i for i, e in enumerate(edges)}
-        feat = None
-        if case.get("feat") is not None:
+
+        def mkfeat():
+            if case.get("feat") is None:
+                return None
             fe = set(obs["boundary"]) | {eid[tuple(sorted(p))] for p in case["feat"]}
-            fv = {v for e in fe for v in edges[e]}
-            feat = _Feat(fe, fv)
-            obs["feature_edges"] = sorted(fe)
-        else:
-            obs["feature_edges"] = None
+            return _Feat(fe, {v for e in fe for v in edges[e]})
+        feat = mkfeat()
+        obs["feature_edges"] = sorted(feat.feature_edges) if feat is not None else None
+        if sess.get("stale_attr"):
+            # attributes with the names the cutter / the mesh use internally already exist and hold arbitrary values
+            a = mesh.edges.create_attribute("singularity_tree", bool)
+            for e in range(len(edges)):
+                a[e] = True
+            b = mesh.faces.create_attribute("barycenter", float, 3)
+            for f in range(len(case["faces"])):
+                b[f] = np.array([7., 7., 7.])
+            c = mesh.edges.create_attribute("length", float)
+            for e in range(len(edges)):
+                c[e] = 0.
+            if sess.get("dup_warning"):
+                M.config.display_duplicate_attribute_warning = True   # create_attribute then hands back the existing one
+        snap0 = _snapshot(mesh)
+        names0 = _attr_names(mesh)
+        call = sess.get("call") or "kw"
+        decoy = None
+        if sess.get("decoy") is not None:
+            decoy = _make_cutter(SingularityCutter, mesh, list(sess["decoy"]), mkfeat(), call)
+            decoy.run()
+            _vandalise(decoy)
         form = case.get("form") or "list"
         late = int(case.get("late") or 0) if form == "list" else 0
         allsing = list(case["singus"])
         given = give(form, allsing[:len(allsing) - late], mesh)
-        cutter = SingularityCutter(mesh, given, features=feat, verbose=False)
+        cutter = _make_cutter(SingularityCutter, mesh, given, feat, call)
         if late:
             given.extend(allsing[len(allsing) - late:])   # the caller completes its list before run()
         rec = {}
@@ -124,14 +209,52 @@ def run_case(case):
             rec["evisited"] = sorted(_ints(evisited))
             rec["cut0"] = sorted(_ints(cutter.cut_edges))
         wrap("_build_cut_edges_tree", after_cut)
+        if sess.get("bad_then_repair") and form == "list":
+            # a vertex that does not exist is in the caller's list: run() raises; the caller repairs its list and runs again
+            given.append(case["nv"] + 3)
+            try:
+                cutter.run()
+                obs["repair_raised"] = None
+            except Exception as ex:  # noqa
+                obs["repair_raised"] = type(ex).__name__
+            given.pop()
+        if sess.get("reconfigure") and form == "list" and len(given) >= 1:
+            # a first run with fewer singular vertices, its results are read; then the caller completes its list and runs again
+            kept = list(given)
+            k = max(1, len(kept) // 2)
+            del given[len(kept) - k:]
+            cutter.run()
+            _ = (cutter.output_mesh, cutter.cut_graph if (given or obs["boundary"] or True) else None, cutter.ref_vertex)
+            given.extend(kept[len(kept) - k:])
         cutter.run()
+        for _ in range(int(sess.get("rerun") or 0)):
+            cutter.run()
+        if sess.get("post_decoy") is not None:
+            d2 = _make_cutter(SingularityCutter, mesh, list(sess["post_decoy"]), mkfeat(), call)
+            d2.run()
+            _vandalise(d2)
+        if decoy is not None:
+            _vandalise(decoy)
         obs["has_features"] = bool(cutter.has_features)
         obs["flagged"] = rec.get("flagged")
         obs["evisited"] = rec.get("evisited")
         obs["cut0"] = rec.get("cut0")
         obs["cut"] = sorted(_ints(cutter.cut_edges))
         obs["cut_adj"] = sorted([int(v), sorted(_ints(ns))] for v, ns in cutter.cut_adj.items() if len(ns) > 0)
+
+        def read_graph():
+            try:
+                g = cutter.cut_graph
+                sel = g.vertices.get_attribute("selection")
+                obs["cut_graph"] = {"nv": len(g.vertices), "edges": sorted(sorted(_ints(e)) for e in g.edges),
+                                    "selected": sorted(int(i) for i in range(len(g.vertices)) if sel[i]),
+                                    "verts": [[int(x) if float(x) == int(x) else float(x) for x in p] for p in g.vertices]}
+            except Exception as ex:  # noqa
+                obs["cut_graph"] = {"error": "%s: %s" % (type(ex).__name__, ex)}
+        if sess.get("access") == "graph_first":
+            read_graph()
         out = cutter.output_mesh
+        obs["out_same_object"] = cutter.output_mesh is out
         obs["out_faces"] = [_ints(F) for F in out.faces]
         ov = []
         for p in out.vertices:
@@ -139,18 +262,18 @@ def run_case(case):
             ov.append([int(x) if x == int(x) else x for x in q])
         obs["out_verts"] = ov
         obs["ref_vertex"] = sorted([int(u), int(v)] for u, v in cutter.ref_vertex.items())
-        try:
-            g = cutter.cut_graph
-            sel = g.vertices.get_attribute("selection")
-            obs["cut_graph"] = {"nv": len(g.vertices), "edges": sorted(sorted(_ints(e)) for e in g.edges),
-                                "selected": sorted(int(i) for i in range(len(g.vertices)) if sel[i]),
-                                "verts": [[int(x) if float(x) == int(x) else float(x) for x in p] for p in g.vertices]}
-        except Exception as ex:  # noqa
-            obs["cut_graph"] = {"error": "%s: %s" % (type(ex).__name__, ex)}
+        if sess.get("access") != "graph_first":
+            read_graph()
+        snap1 = _snapshot(mesh)
+        obs["mesh_unchanged"] = snap1 == snap0 and snap0[1] == [list(F) for F in case["faces"]] \
+            and snap0[0] == [[float(x) for x in p] for p in case["coords"]]
+        obs["attr_leak"] = [n for n in _attr_names(mesh) if n not in names0]
         obs["ok"] = True
     except Exception as ex:  # noqa
         obs["error"] = "%s: %s" % (type(ex).__name__, ex)
         obs["trace"] = traceback.format_exc()[-1500:]
+    finally:
+        M.config.sort_neighborhoods, M.config.display_duplicate_attribute_warning = cfg_saved
     return obs
 
 
